@@ -32,13 +32,15 @@ def weaver_bin(here):
     return b
 
 
-def weave(here, repo, unit, out_rs, out_map, vacuity=False):
+def weave(here, repo, unit, out_rs, out_map, vacuity=False, localise=False):
     cmd = [weaver_bin(here), "--repo", repo]
     for kc in P.UNITS[unit]["kc"]:
         cmd += ["--kc", os.path.join(here, "contracts", kc)]
     cmd += ["--out", out_rs, "--map", out_map]
     if vacuity:
         cmd.append("--vacuity")
+    if localise:
+        cmd.append("--localise")
     r = sh(cmd)
     if r.returncode != 0:
         raise Undecided("kweave failed (unit %s): %s" % (unit, (r.stderr or r.stdout)[-3000:]))
@@ -157,9 +159,19 @@ def classify(res, wmap, rs_text, unit):
                 if func_at(s["line_start"]):
                     where = s
                     break
+        # exit obligations carry a marker with the source line of the exit they guard
+        xsrc = None
+        if where is not None and ob is not None and ob["kind"] in ("exit-assert", "ensures@exit", "vacuity"):
+            for l in range(where["line_start"], max(where["line_start"] - 40, 0), -1):
+                mm = re.findall(r"/\*@x:(\d+)\*/", lines[l - 1])
+                if mm:
+                    xsrc = int(mm[-1])
+                    break
         fn = func_at(where["line_start"]) if where else None
         func = ob["func"] if ob is not None and ob["kind"] != "requires" else (fn["func"] if fn else (ob["func"] if ob else "?"))
         src = src_at(where["line_start"]) if where else None
+        if xsrc is not None and fn is not None:
+            src = [fn["file"], xsrc]
         exit_text = ""
         if where is not None:
             label = where.get("label") or ""
@@ -261,6 +273,31 @@ def verify_unit(here, repo, unit, tmp, seed, tier):
         res2 = f3.result() if f3 else None
     rs_text = open(rs).read()
     failures = classify(res, wmap, rs_text, unit)
+    # §3.8 localisation: a failed `ensures` that Verus attributes to "the end of the function body" is
+    # re-checked with every ensures clause asserted at each exit, which names the exit
+    if any(f["exit_text"] == "<end of function body>" and f["kind"] == "ensures" for f in failures):
+        try:
+            lrs = os.path.join(tmp, unit + "_loc.rs")
+            lmp = os.path.join(tmp, unit + "_loc.map.json")
+            lmap, _ = weave(here, repo, unit, lrs, lmp, False, True)
+            lmap["_repo"] = repo
+            lres = run_verus(lrs, None, None, 8)
+            lfail = [f for f in classify(lres, lmap, open(lrs).read(), unit) if f["kind"] == "ensures@exit"]
+            out = []
+            for f in failures:
+                if f["exit_text"] == "<end of function body>" and f["kind"] == "ensures":
+                    loc = [g for g in lfail if g["id"] == f["id"] and g["func"] == f["func"]]
+                    if loc:
+                        for g in loc:
+                            g2 = dict(f)
+                            g2["exit_text"], g2["src"] = g["exit_text"], g["src"]
+                            g2["rendered"] = f["rendered"] + "\n--- localised (ensures asserted at each exit) ---\n" + g["rendered"]
+                            out.append(g2)
+                        continue
+                out.append(f)
+            failures = out
+        except Undecided:
+            pass
     stability = None
     if res2 is not None:
         f2l = classify(res2, wmap, rs_text, unit)
